@@ -53,7 +53,9 @@ static struct ciq *vx_queue(struct op_state_t *op, size_t i)
   return &op->the_queue;
 }
 //@FUNC
-void init_queue(struct bulk_receiver *self, uint32_t worker_thread, uint32_t num_chunks)
+/* the pinned function returns void; the C signature returns a value so that a variant that reports something still lifts
+ * (falling off the end is fine in C as long as the value is not used: the harness ignores it) */
+int init_queue(struct bulk_receiver *self, uint32_t worker_thread, uint32_t num_chunks)
 __CPROVER_requires(self->op_state->num_worker_threads >= 1 && self->op_state->num_worker_threads <= W_MAX)
 #ifdef W_CONST
 __CPROVER_requires(self->op_state->num_worker_threads == W_CONST)
